@@ -70,6 +70,11 @@ CLAIMS = {
   text="Structural necessary conditions of print/read round trip: the string and char printers use strconv.Quote/QuoteRune and every escape those can emit has an arm in EscapeChar (the three multi-character escapes are recorded findings); lexer.go/parser.go never convert one byte of a string to a rune; SexpFloat.SexpString never returns the bare shortest fixed-point text; every token kind produced by DecodeAtom has an arm in ParseExpression (backslash is structural) and decimal/hex/octal/binary arms parse with base 10/16/8/2 from the text the lexer hands over with the two-character prefix stripped; the top-level end-of-text path flushes and parses the last atom. Does not decide float text exactness, the regex cascade, or equality of read-back values.",
   note="Trusts the documented output alphabet of strconv.Quote/QuoteRune, go/types constants and go/ssa.",
   ref="DESIGN.md §3 C12"),
+ "C11": dict(
+  technique="string-provenance dataflow over go/ssa on the JSON encoder (every concatenated piece is a constant, a quoted string or a recursive encoding), table agreement of reserved keys between encoders and decoders, sorted-walk / order-restoring / canonical-handle checks",
+  text="Structural necessary conditions of well-formed, order-preserving encodings: every text returned by SexpToJson / jsonHashHelper / jsonArrayHelper is built only from encoder constants, jsonQuote results (encoding/json), recursive encoder results, or the printer of a number/bool; strings, symbols, keys, key-order entries and the type name are quoted; nil is null; encoders and decoders agree on the reserved keys Atype and zKeyOrder; decoders walk maps through a sorting helper and restore order from the key list when found; both codec handles are canonical; msgpack goes through SexpToJson. Non-finite floats are a recorded finding. Does not decide value equality after the round trip or number formatting.",
+  note="Trusts encoding/json for string escaping and go/ssa for the provenance walk.",
+  ref="DESIGN.md §3 C11"),
 }
 NA_DEFAULT="rules not built yet (build in progress; see DESIGN.md §7)"
 NA = {}
